@@ -27,8 +27,10 @@ fn guard_y<T: yuvxyb::Pixel, R>(mk: impl FnOnce() -> Result<Yuv<T>, yuvxyb::YuvE
     }
 }
 
-const YUV_PX: [[u16; 3]; 4] = [[16, 128, 128], [235, 128, 128], [81, 90, 240], [145, 54, 34]];
-const RGB_PX: [[f32; 3]; 4] = [[0.0, 0.0, 0.0], [1.0, 1.0, 1.0], [0.75, 0.25, 0.5], [0.1, 0.6, 0.9]];
+// nominal, foot-room and head-room codes; in-gamut and out-of-gamut RGB (the stages that do not use a label must ignore
+// it for all of them)
+const YUV_PX: [[u16; 3]; 4] = [[16, 128, 128], [250, 3, 252], [5, 252, 3], [145, 54, 34]];
+const RGB_PX: [[f32; 3]; 4] = [[0.0, 0.0, 0.0], [1.0, 1.0, 1.0], [1.25, -0.125, 0.5], [0.1, 0.6, 0.9]];
 
 fn y2r(c: &Cfg) -> (String, Option<Rgb>) {
     guard_y(|| yuv444::<u8>(&YUV_PX, 2, 2, c), |y| Rgb::try_from(y))
